@@ -273,7 +273,7 @@ def check_layout(rep, facts, fn, models):
                 er_ok, why = False, 'pages are erased in the same loop that writes them'
             elif end is None or end > wl_idx:
                 er_ok, why = False, 'the erase loop has not completed when the write loop starts'
-            elif el_it != wl_it:
+            elif el_it != wl_it and m.trip_count(el_it, m.sym_for(r, raw)) != m.trip_count(wl_it, sym_w):
                 er_ok, why = False, 'erase loop ranges over {} but write loop over {}'.format(show(el_it), show(wl_it))
             elif r.idx > d.idx:
                 er_ok, why = False, 'a page is erased after it has been written'
@@ -288,15 +288,13 @@ def check_layout(rep, facts, fn, models):
         if not setaddrs and once('nosetaddr'):
             rep.fail(F('R18.4.address', 'cli_main', d.site, 'the data download is not preceded by a set-address command'), instance='set-address')
         rng = wl_it
-        rep.check(len(rng[2]) == 1 and not rng[3], 'R18.4.same-range', 'loops count pages from 0',
-                  lambda d=d, rng=rng: F('R18.4.same-range', 'cli_main', d.site, 'the page loop runs over {} instead of range(pages)'.format(show(rng))), nontrivial=False)
-        if len(rng[2]) != 1:
-            continue
-        N = sym_w.poly(rng[2][0])
+        N = m.trip_count(rng, sym_w)
+        if N is None:
+            raise AnalysisError('the number of iterations of {} is not a polynomial the rules can follow'.format(show(rng)[:80]))
         # R18.6 padding: len(FW) == N*S given LEN = Q*S + R from divmod, zero bytes only
-        dm = D.find_all(rng[2][0], lambda t: t[0] == 'unpack' and strip(t[1])[0] == 'call' and strip(t[1])[1] == 'divmod')
+        dm = [t for a in rng[2] for t in D.find_all(a, lambda t: t[0] == 'unpack' and strip(t[1])[0] == 'call' and strip(t[1])[1] == 'divmod')]
         if not dm:
-            raise AnalysisError('the page count {} is not derived from divmod(len(firmware), page_size)'.format(show(rng[2][0])[:80]))
+            raise AnalysisError('the page count {} is not derived from divmod(len(firmware), page_size)'.format(show(rng)[:80]))
         src = dm[0][1]
         q, r_ = ('unpack', src, '0', 2), ('unpack', src, '1', 2)
         dargs = strip(src)[2]
